@@ -100,6 +100,10 @@ def check(ctx, r, rid="R"):
         whole = text(items)
         key = "t_plural_inner#%s" % inp
         sel = "get_plural_category_for ( _locale , & _value , RULE_TYPE )"
+        arms_ok = re.search(re.escape(sel) + r"\s*\{\s*one => \{ ONE \} , few => \{ FEW \} , _ => \{ OTHER \} ,?\s*\}", whole) is not None
+        if not arms_ok:
+            r.viol("%s:t_plural_inner#%s#arms" % (rid, inp), "the written forms are not matched in order with the fallback last: `%s`" % whole[:300], file=TP, line=tp.line)
+            continue
         if "let _value = COUNT_EXPR" not in whole or "let _ctx = CTX_EXPR" not in whole or sel not in whole or any("COUNT_EXPR" in text(b) or "CTX_EXPR" in text(b) for b in bodies):
             r.viol("%s:%s#shape" % (rid, key), "count / context are not bound once outside, or the category is not selected with (_locale, &_value, rule type): `%s`" % whole[:300], file=TP, line=tp.line)
             continue
